@@ -162,6 +162,29 @@ def run(ctx):
                            "level_mm": z, "got": g, "formula": formula}
             if wit:
                 break
+        if wit is None:
+            # the same levels passed as arrays, the way the simulation passes its grid: one level above zeta_max
+            # anywhere in the array refuses the call; otherwise each element is the scalar value
+            for _v in range(4):
+                sub = rng.sample(list(range(len(zs))), rng.randint(2, len(zs)))
+                if _v == 0:
+                    sub = [i_ for i_ in sub if zs[i_] / 10 <= p["zeta_max_cm"]] or [0]
+                arr = [zs[i_] for i_ in sub]
+                try:
+                    ga = [float(v) for v in np.atleast_1d(T(np.array(arr)))]
+                except ValueError:
+                    ga = "refused"
+                except Exception as e:  # noqa
+                    ga = "other %r" % e
+                ctx.count("transmissivity_array_calls")
+                want_refused = any(z / 10 > p["zeta_max_cm"] for z in arr)
+                if want_refused:
+                    ctx.count("transmissivity_array_calls_with_an_inadmissible_level")
+                if (ga == "refused") != want_refused or (ga != "refused" and (isinstance(ga, str) or len(ga) != len(arr) or any(
+                        not (a == got[i_] or (np.isnan(a) and np.isnan(got[i_])) or abs(a - got[i_]) <= 1e-12 * abs(got[i_])) for a, i_ in zip(ga, sub)))):
+                    wit = {"why": "an array of levels is not treated as its elements are one by one (refused iff any level is above zeta_max)",
+                           "levels_mm": arr, "got": ga if isinstance(ga, str) else ga[:8], "one_by_one": [got[i_] for i_ in sub][:8]}
+                    break
         same = all((g == mv) or (g != "refused" and mv != "refused" and (abs(g - mv) <= 1e-12 * abs(mv) or g == mv or (np.isinf(g) and np.isinf(mv))))
                    for g, mv in zip(got, m))
         ctx.obligation(ob_t, wit is None and same)
